@@ -22,7 +22,7 @@ fn algebra<T: Tier>(rep: &mut Report) {
     // (a) signed basis triples, (b) sparse 0/+-1, (c) generic with deviations
     let n_a = 8 * 8 * 8;
     let sp = SparseSpace::new(12, rep.pick(3, 4), true);
-    let k = rep.pick(2, 3);
+    let k = rep.pick(2, 4);
     let letters = alphabet::A1;
     let dev = DevSpace::new(13, letters.len(), k);
     let nb = 3;
@@ -230,7 +230,7 @@ fn action<T: Tier>(rep: &mut Report) {
         },
     );
     // arbitrary (non-unit) quaternions: the formula clause
-    let k = rep.pick(2, 3);
+    let k = rep.pick(2, 5);
     let letters = alphabet::A1;
     let dev = DevSpace::new(7, letters.len(), k);
     rep.cases(
